@@ -56,8 +56,11 @@ Definition replay_event (r : rp) (e : val) : rp :=
       end
   | VL [VN 2; VN k; res; VN nlocks] =>        (* operation k returned *)
       let r1 := if rp_applied r then r else apply_pcs r in     (* an operation without a critical section *)
+      (* once the body is gone C11 fixes only the failing cases (trace clauses below); whether the other calls
+         still succeed is compared under its own field name *)
+      let fld := if c_reader (k_s (rp_k r1)) then F_X_TRACE else (F_X_TRACE ++ bs ".after-body-drop") in
       let f := match rp_res r1 with
-               | Some m => cmp_field F_X_TRACE (VL [VN k; of_copres m]) (VL [VN k; res])
+               | Some m => cmp_field fld (VL [VN k; of_copres m]) (VL [VN k; res])
                | None => []
                end
                in
